@@ -21,9 +21,11 @@ import (
 	"github.com/named-data/ndnd/std/utils"
 )
 
-const lpPacketOverhead = 1 + 3
-const pitTokenOverhead = 1 + 1 + 6
-const congestionMarkOverhead = 3 + 1 + 8
+const lpPacketOverhead = 1 + 3                      // LpPacket (Type + Length of up to 2^16)
+const fragmentOverhead = 1 + 3                      // Fragment (Type + Length of up to 2^16)
+const fragmentationOverhead = 1 + 1 + 8 + 2*(1+1+2) // Sequence + FragIndex + FragCount (up to 2^16 fragments)
+const incomingFaceIdOverhead = 3 + 1 + 8            // IncomingFaceId (upper bound)
+const congestionMarkOverhead = 3 + 1 + 8            // CongestionMark (upper bound)
 
 // maxFragCount is the largest FragCount accepted by reassembly. A sender with an MTU of at
 // least 128 never needs more than MaxNDNPacketSize/32 fragments for one packet.
@@ -115,20 +117,25 @@ func (l *NDNLPLinkService) SetOptions(options NDNLPLinkServiceOptions) {
 	l.computeHeaderOverhead()
 }
 
+// computeHeaderOverhead computes the number of bytes reserved in every frame of a fragmented
+// packet for the LpPacket and Fragment headers and the fields that depend only on the options.
 func (l *NDNLPLinkService) computeHeaderOverhead() {
-	l.headerOverhead = lpPacketOverhead // LpPacket (Type + Length of up to 2^16)
+	l.headerOverhead = lpPacketOverhead + fragmentOverhead
 
 	if l.options.IsFragmentationEnabled {
-		l.headerOverhead += 1 + 1 + 8 // Sequence
-	}
-
-	if l.options.IsFragmentationEnabled {
-		l.headerOverhead += 1 + 1 + 2 + 1 + 1 + 2 // FragIndex/FragCount (Type + Length + up to 2^16 fragments)
+		l.headerOverhead += fragmentationOverhead
 	}
 
 	if l.options.IsIncomingFaceIndicationEnabled {
-		l.headerOverhead += 3 + 1 + 8 // IncomingFaceId
+		l.headerOverhead += incomingFaceIdOverhead
 	}
+}
+
+// lpFrameLength returns the exact size of an LpPacket that carries headerLen bytes of header
+// fields and a Fragment of payloadLen bytes.
+func lpFrameLength(headerLen int, payloadLen int) int {
+	inner := headerLen + 1 + enc.TLNum(payloadLen).EncodingLength() + payloadLen
+	return 1 + enc.TLNum(inner).EncodingLength() + inner
 }
 
 // Run starts the face and associated goroutines
@@ -189,50 +196,6 @@ func sendPacket(l *NDNLPLinkService, out dispatch.OutPkt) {
 
 	now := time.Now()
 
-	effectiveMtu := l.transport.MTU() - l.headerOverhead
-	if pkt.PitToken != nil {
-		effectiveMtu -= pitTokenOverhead
-	}
-	if pkt.CongestionMark != nil {
-		effectiveMtu -= congestionMarkOverhead
-	}
-
-	// Fragmentation
-	var fragments []*spec.LpPacket
-	if len(wire) > effectiveMtu {
-		if !l.options.IsFragmentationEnabled {
-			core.LogInfo(l, "Attempted to send frame over MTU on link without fragmentation - DROP")
-			return
-		}
-
-		// Split up fragment
-		nFragments := int((len(wire) + effectiveMtu - 1) / effectiveMtu)
-		fragments = make([]*spec.LpPacket, nFragments)
-		reader := enc.NewBufferReader(wire)
-		for i := 0; i < nFragments; i++ {
-			readSize := effectiveMtu
-			if i == nFragments-1 {
-				readSize = len(wire) - effectiveMtu*(nFragments-1)
-			}
-
-			frag, err := reader.ReadWire(readSize)
-			if err != nil {
-				core.LogFatal(l, "Unexpected Wire reading error")
-			}
-			fragments[i] = &spec.LpPacket{Fragment: frag}
-		}
-	} else {
-		fragments = []*spec.LpPacket{{Fragment: enc.Wire{wire}}}
-	}
-
-	// Sequence
-	if len(fragments) > 1 {
-		for _, fragment := range fragments {
-			fragment.Sequence = utils.IdPtr(l.nextSequence)
-			l.nextSequence++
-		}
-	}
-
 	// Congestion marking
 	congestionMark := pkt.CongestionMark // from upstream
 	if congestionMarking {
@@ -252,6 +215,68 @@ func sendPacket(l *NDNLPLinkService, out dispatch.OutPkt) {
 		l.congestionCheck += uint64(len(wire)) // approx
 	}
 
+	// Header fields attached to every frame of this packet
+	mtu := l.transport.MTU()
+	hasInFace := l.options.IsIncomingFaceIndicationEnabled && out.InFace != nil
+	tokenLen := 0 // exact size of the PitToken field
+	if len(out.PitToken) > 0 {
+		tokenLen = 1 + enc.TLNum(len(out.PitToken)).EncodingLength() + len(out.PitToken)
+	}
+	exactHeader := tokenLen // exact size of the header fields of an unfragmented frame
+	if hasInFace {
+		exactHeader += 3 + 1 + enc.Nat(*out.InFace).EncodingLength()
+	}
+	if congestionMark != nil {
+		exactHeader += 3 + 1 + enc.Nat(*congestionMark).EncodingLength()
+	}
+
+	// Fragmentation
+	var fragments []*spec.LpPacket
+	if lpFrameLength(exactHeader, len(wire)) <= mtu {
+		// The packet fits: one frame
+		fragments = []*spec.LpPacket{{Fragment: enc.Wire{wire}}}
+	} else {
+		if !l.options.IsFragmentationEnabled {
+			core.LogInfo(l, "Attempted to send frame over MTU on link without fragmentation - DROP")
+			return
+		}
+
+		// Payload bytes per fragment: what remains of the MTU after the reserved headers
+		effectiveMtu := mtu - l.headerOverhead - tokenLen
+		if congestionMark != nil {
+			effectiveMtu -= congestionMarkOverhead
+		}
+		if effectiveMtu <= 0 {
+			core.LogInfo(l, "MTU too small to carry the headers of a fragment - DROP")
+			return
+		}
+
+		// Split up fragment
+		nFragments := int((len(wire) + effectiveMtu - 1) / effectiveMtu)
+		fragments = make([]*spec.LpPacket, nFragments)
+		reader := enc.NewBufferReader(wire)
+		for i := 0; i < nFragments; i++ {
+			readSize := effectiveMtu
+			if i == nFragments-1 {
+				readSize = len(wire) - effectiveMtu*(nFragments-1)
+			}
+
+			frag, err := reader.ReadWire(readSize)
+			if err != nil {
+				core.LogFatal(l, "Unexpected Wire reading error")
+			}
+
+			// Sequence, FragIndex, FragCount
+			fragments[i] = &spec.LpPacket{
+				Fragment:  frag,
+				Sequence:  utils.IdPtr(l.nextSequence),
+				FragIndex: utils.IdPtr(uint64(i)),
+				FragCount: utils.IdPtr(uint64(nFragments)),
+			}
+			l.nextSequence++
+		}
+	}
+
 	// Send fragment(s)
 	for _, fragment := range fragments {
 		// PIT tokens
@@ -260,7 +285,7 @@ func sendPacket(l *NDNLPLinkService, out dispatch.OutPkt) {
 		}
 
 		// Incoming face indication
-		if l.options.IsIncomingFaceIndicationEnabled && out.InFace != nil {
+		if hasInFace {
 			fragment.IncomingFaceId = out.InFace
 		}
 
